@@ -91,7 +91,15 @@ Lemma wstep_view x w a w' o :
   (s_cl (gs x w') = s_cl (gs x w) /\ proj x o = []) \/
   (exists ca, step (cfg_of x) (s_cl (gs x w)) ca = Some (s_cl (gs x w'), proj x o)).
 Proof.
-  intros St. destruct a as [z ca|z|z|z|z|z|z|z]; cbn [wstep] in St.
+  intros St. destruct a as [z ca|z|z|z|z|z|z|z|z rq k]; cbn [wstep] in St.
+  9:{ left. split; [|destruct rq;
+         [destruct (nth_error (s_cq (gs z w)) k) as [r|]; [destruct (droppable_req r)|]|
+          destruct (nth_error (s_rq (gs z w)) k) as [r|]; [destruct (droppable_resp r)|]];
+         inversion St; reflexivity].
+       destruct rq;
+         [destruct (nth_error (s_cq (gs z w)) k) as [r|]; [destruct (droppable_req r)|]|
+          destruct (nth_error (s_rq (gs z w)) k) as [r|]; [destruct (droppable_resp r)|]];
+         inversion St; subst; destruct x, z; reflexivity. }
   - destruct (client_allowed ca); [|discriminate].
     destruct (step (cfg_of z) (s_cl (gs z w)) ca) as [[c' oc]|] eqn:Es; [|discriminate]. inversion St; subst.
     destruct (Bool.bool_dec x z) as [->|Hne].
@@ -939,10 +947,94 @@ Proof.
         destruct (reach_proj z w H Rch) as [cacts Hrun].
         apply (proj2 (in_proj _ _ _)) in Hev. apply in_split in Hev as (pre & post & Hsp).
         destruct (ack_request_after_recv _ _ _ _ _ _ _ _ Hrun Hsp) as (j & m & Hm & Hi).
-        exists j, m. split; auto. apply (proj1 (in_proj _ _ _)). rewrite Hsp. apply in_or_app. left. exact Hi.
+        exists j, m. split; auto. rewrite Bool.negb_involutive. apply (proj1 (in_proj _ _ _)). rewrite Hsp. apply in_or_app. left. exact Hi.
       * rewrite app_nil_r. exact (b3 _ _ _ _ _ _ _ _ IBy).
       * exact (b4 _ _ _ _ _ _ _ _ IBy).
       * intros n e [].
+Qed.
+
+(* ------------------------------------------------------------------ *)
+(* a message-dropping relay / network                                  *)
+
+Lemma in_remove_nth {A} k (l : list A) x : In x (remove_nth k l) -> In x l.
+Proof.
+  revert k; induction l as [|y l IH]; intros [|k] Hi; cbn in *; auto.
+  destruct Hi as [E|Hi]; auto. right. eapply IH; eauto.
+Qed.
+
+Lemma droppable_scan o r : droppable_resp r = true -> scan_step o r = o.
+Proof. destruct r; cbn; try discriminate; auto. Qed.
+
+Lemma acks_ok_remove P o l k r :
+  nth_error l k = Some r -> droppable_resp r = true -> acks_ok P o l -> acks_ok P o (remove_nth k l).
+Proof.
+  revert o k; induction l as [|y l IH]; intros o [|k] Hn Hd A; cbn in *; try discriminate.
+  - inversion Hn; subst. destruct A as [_ A]. rewrite (droppable_scan _ _ Hd) in A. exact A.
+  - destruct A as [A1 A2]. split; eauto.
+Qed.
+
+Lemma scan_end_remove o l k r :
+  nth_error l k = Some r -> droppable_resp r = true -> scan_end o (remove_nth k l) = scan_end o l.
+Proof.
+  revert o k; induction l as [|y l IH]; intros o [|k] Hn Hd; cbn in *; try discriminate.
+  - inversion Hn; subst. rewrite (droppable_scan _ _ Hd). reflexivity.
+  - eapply IH; eauto.
+Qed.
+
+Lemma pres_drop_msg z rq k w H w' o :
+  InvX z w H -> InvX (negb z) w H ->
+  wstep w (WDrop z rq k) = Some (w', o) ->
+  InvX z w' (H ++ o) /\ InvX (negb z) w' (H ++ o).
+Proof.
+  intros (IAz & IBz & ILz) (IAy & IBy & ILy) St. cbn [wstep] in St.
+  rewrite Bool.negb_involutive in *. set (sd := gs z w) in *.
+  destruct rq.
+  - destruct (nth_error (s_cq sd) k) as [r|] eqn:En; [|discriminate].
+    destruct (droppable_req r) eqn:Ed; inversion St; subst w' o. clear St. rewrite app_nil_r.
+    split.
+    + unfold InvX. rewrite gs_ss_same, gs_ss_other', epoch_ss. split; [|split].
+      * cbn [s_cq set_cq]. rewrite <- (app_nil_r H). eapply IA_step; try exact IAz; auto.
+        -- intros e m Hi. left. eapply in_remove_nth; eauto.
+        -- intros j m eo [].
+      * exact IBz.
+      * destruct ILz as [L0 L1 L2]. fold sd in L0, L1, L2.
+        unfold conn_of, open_of, is_linked. cbn [s_cl s_cq s_rq s_call set_cq]. fold (is_linked sd) (conn_of sd) (open_of sd).
+        constructor.
+        -- intros E. destruct (L0 E) as (A & B & C). rewrite C. destruct k; auto.
+        -- intros Hl. destruct (L1 Hl) as [A B]. split; auto. intros Hi. apply B. eapply in_remove_nth; eauto.
+        -- intros Hi. apply in_remove_nth in Hi. destruct (L2 Hi) as (A & B & rest & C & D).
+           repeat split; auto. rewrite C in En |- *. destruct k as [|k]; cbn in En.
+           ++ inversion En; subst r. discriminate.
+           ++ exists (remove_nth k rest). cbn. split; auto. intros Hx. apply D. eapply in_remove_nth; eauto.
+    + unfold InvX. rewrite Bool.negb_involutive, gs_ss_same, gs_ss_other', epoch_ss. split; [|split].
+      * exact IAy.
+      * cbn [s_cq set_cq]. rewrite <- (app_nil_r H). eapply IB_same_stream; [exact IBy| |auto|auto|].
+        -- intros e n Hi. left. eapply in_remove_nth; eauto.
+        -- intros n e [].
+      * exact ILy.
+  - destruct (nth_error (s_rq sd) k) as [r|] eqn:En; [|discriminate].
+    destruct (droppable_resp r) eqn:Ed; inversion St; subst w' o. clear St. rewrite app_nil_r.
+    split.
+    + unfold InvX. rewrite gs_ss_same, gs_ss_other', epoch_ss. split; [|split].
+      * exact IAz.
+      * unfold box_acked, open_of, link_prev. cbn [s_cl s_rq s_call set_rq].
+        fold (box_acked sd) (open_of sd) (link_prev sd).
+        rewrite <- (app_nil_r H). eapply IB_step; try exact IBz; auto.
+        -- rewrite app_nil_r. eapply acks_ok_remove; eauto. exact (b3 _ _ _ _ _ _ _ _ IBz).
+        -- intros prev E. rewrite (scan_end_remove _ _ _ _ En Ed). exact (b4 _ _ _ _ _ _ _ _ IBz prev E).
+        -- intros n e [].
+      * destruct ILz as [L0 L1 L2]. fold sd in L0, L1, L2.
+        unfold conn_of, open_of, is_linked. cbn [s_cl s_cq s_rq s_call set_rq]. fold (is_linked sd) (conn_of sd) (open_of sd).
+        constructor; auto.
+        -- intros E. destruct (L0 E) as (A & B & C). rewrite B. destruct k; auto.
+        -- intros Hi. destruct (L2 Hi) as (A & B & C). rewrite A. destruct k; auto.
+    + unfold InvX. rewrite Bool.negb_involutive, gs_ss_same, gs_ss_other', epoch_ss. split; [|split].
+      * unfold box_recv, recv_of. cbn [s_cl s_rq s_call set_rq]. fold (box_recv sd) (recv_of sd).
+        rewrite <- (app_nil_r H). eapply IA_step; try exact IAy; auto.
+        -- intros m Hi. left. eapply in_remove_nth; eauto.
+        -- intros j m eo [].
+      * exact IBy.
+      * exact ILy.
 Qed.
 
 (* ------------------------------------------------------------------ *)
@@ -963,7 +1055,7 @@ Proof.
   assert (G : forall z, InvX z w H /\ InvX (negb z) w H) by (intros [|]; cbn; auto).
   assert (K : forall z, InvX z w' (H ++ o) /\ InvX (negb z) w' (H ++ o) -> Inv w' (H ++ o)).
   { intros [|] [A B]; cbn in B; split; auto. }
-  destruct a as [z ca|z|z|z|z|z|z|z]; apply (K z); destruct (G z) as [Iz Iy].
+  destruct a as [z ca|z|z|z|z|z|z|z|z rq k]; apply (K z); destruct (G z) as [Iz Iy].
   - eapply pres_cli; eauto.
   - eapply pres_conn; eauto.
   - eapply pres_deliver; eauto.
@@ -972,6 +1064,7 @@ Proof.
   - eapply pres_req; eauto.
   - eapply pres_loop; eauto.
   - eapply pres_detach; eauto.
+  - eapply pres_drop_msg; eauto.
 Qed.
 
 Lemma reach_inv w H : reach w H -> Inv w H.
@@ -982,6 +1075,17 @@ Proof. intros [A B]. destruct x; auto. Qed.
 
 (* ------------------------------------------------------------------ *)
 (* C21 end to end                                                      *)
+
+Lemma resp_no_senddone r t t' o i m eo :
+  region (AResp r) t t' o -> ~ In (OSendDone i true m eo) o.
+Proof.
+  intros R Hin. inversion R; subst.
+  - match goal with Hk : forall x, In x o -> _ |- _ => specialize (Hk _ Hin); destruct Hk end.
+  - destruct r; try (destruct Hin; fail).
+    match goal with |- _ => idtac end.
+    destruct (ack_marks n t); [destruct Hin as [E|[]]; discriminate|destruct Hin].
+  - destruct Hin as [E|[]]; discriminate.
+Qed.
 
 (* in a reachable world with history H, a Send of x that succeeds now (event
    in the output o of the next step) was preceded by the partner's Recv
@@ -1019,9 +1123,7 @@ Proof.
       assert (H1 : In (OAckProc (m_seq m) (Some e)) (proj x o)) by (apply (proj2 (in_proj _ _ _)); exact Hx).
       assert (H2 : In (OSendDone i true m (Some e)) (proj x o)) by (apply (proj2 (in_proj _ _ _)); exact Hin).
       destruct (ackproc_region _ _ _ _ _ _ Rg H1) as [-> _].
-      inversion Rg; subst.
-      + specialize (H4 _ H2). destruct H4.
-      + rewrite <- H5 in H2. destruct (ack_marks (m_seq m) (tk (s_cl (gs x w)))); [destruct H2 as [E|[]]; discriminate|destruct H2]. }
+      exact (resp_no_senddone _ _ _ _ _ _ _ Rg H2). }
   (* justified by the partner's Recv *)
   destruct (Inv_X x _ _ I0) as (_ & IBx & _).
   destruct (b5 _ _ _ _ _ _ _ _ IBx _ _ HackH) as (j & m' & Hseq & Hrecv).
@@ -1047,11 +1149,12 @@ Proof.
   assert (G : forall w0 H0 w tr, reach w0 H0 -> wrun w0 acts = (w, tr) ->
               forall pre post x i m eo, tr = pre ++ (x, OSendDone i true m eo) :: post ->
               exists j, In (negb x, ORecvDone j (Some m) eo) (H0 ++ pre)).
-  { induction acts as [|a acts IH]; intros w0 H0 w tr R E pre post x i m eo Eq; cbn [wrun] in E.
-    - inversion E; subst. destruct pre; discriminate.
+  { induction acts as [|a acts IH]; intros w0 H0 w tr R E; cbn [wrun] in E.
+    - inversion E; subst. intros [|? ?] ? ? ? ? ? Eq; discriminate.
     - destruct (wexec w0 a) as [w1 o1] eqn:E1. destruct (wrun w1 acts) as [w2 o2] eqn:E2. inversion E; subst.
       unfold wexec in E1. destruct (wstep w0 a) as [[wx ox]|] eqn:Es; inversion E1; subst.
-      + assert (Hsplit : (exists post1, o1 = pre ++ (x, OSendDone i true m eo) :: post1) \/
+      + intros pre post x i m eo Eq.
+        assert (Hsplit : (exists post1, o1 = pre ++ (x, OSendDone i true m eo) :: post1) \/
                          (exists pre2, pre = o1 ++ pre2 /\ o2 = pre2 ++ (x, OSendDone i true m eo) :: post)).
         { clear - Eq. revert pre Eq. induction o1 as [|y o1 IHo]; intros pre Eq; cbn in *.
           - right. exists pre. split; auto.
@@ -1065,6 +1168,6 @@ Proof.
           { rewrite Hp. apply in_or_app. right. left. reflexivity. }
           exists j. apply in_or_app. left. exact Hj.
         * subst pre. rewrite app_assoc. eapply (IH w1 (H0 ++ o1)); eauto. eapply reach_step; eauto.
-      + rewrite app_nil_r in *. cbn in Eq. eapply (IH w1 H0); eauto. }
+      + cbn. eapply (IH w1 H0); eauto. }
   intros w tr pre post x i m eo E Eq. apply (G w_init [] w tr reach_init E pre post x i m eo Eq).
 Qed.
